@@ -292,6 +292,7 @@ func genFlow(t *Tape, name string) *Plan {
 			s.nextPID = 0 // the client's own ids start at 1, like the broker's: collisions
 		}
 		k.WPub = 12
+		k.ConcPct = []int{0, 30, 60}[t.Draw("c10.conc", 3)] // several publishers delivering to one subscriber at once
 	case "C11":
 		cfg.ReceiveMax = uint16(1 + t.Draw("c11.srm", 4))
 		k.RecvMaxChoices = []uint16{1, 2, 3}
@@ -337,7 +338,13 @@ func genFlow(t *Tape, name string) *Plan {
 		}
 		g.Connect(1)
 		for i, n := 0, 1+t.Draw("c09.npub", 2); i < n; i++ {
-			g.Publish(1)
+			pi := g.Publish(1)
+			if t.Draw("c09.q2", 4) > 0 { // mostly QoS 2: the exchange with a reply (PUBREL) to lose
+				g.plan.Ops[pi].Pkt.Qos = 2
+				if g.plan.Ops[pi].Pkt.PacketID == 0 {
+					g.plan.Ops[pi].Pkt.PacketID = g.pid(1)
+				}
+			}
 		}
 		for i, n := 0, t.Draw("c09.acksbefore", 2); i < n; i++ {
 			g.add(Op{Kind: "ack", Slot: 0, N: 0})
